@@ -282,6 +282,7 @@ def set_coords(mol, rng):
 class Cases:
     def __init__(self, ck):
         self.ck = ck
+        self.rng = random.Random(f'{ck.seed}:c20:cases')
         self.big, self.bigmeta = [], []        # whole-molecule terms (long)
         self.small, self.smallmeta = [], []    # helper applications (short)
 
@@ -357,8 +358,9 @@ def corr_to(cs, tag, m, keep=True):
         for n, p in c.items():
             ps[idx[n]] = p
         confs.append(ps)
-    cs.add_big(f'tconf_ok {lst([pair_term(t[7:9]) for t in snap["atoms"]])} {lst(confs, lambda c: lst(c, pos_term))} {lst(pre["confs"], conf_term)}',
-               (tag, 'to-conformers', len(confs)))
+    if confs or any(t[7] or t[8] for t in snap['atoms']) or len(pre['confs']) != 1 or cs.rng.random() < 0.1:
+        cs.add_big(f'tconf_ok {lst([pair_term(t[7:9]) for t in snap["atoms"]])} {lst(confs, lambda c: lst(c, pos_term))} {lst(pre["confs"], conf_term)}',
+                   (tag, 'to-conformers', len(confs)))
     ck.count(f'to-conformers:{1 + len(confs)}')
     return rd, tap
 
@@ -421,8 +423,9 @@ def corr_from(cs, tag, rd):
         ck.count('from-bond-stereo:' + name.lower() + (':label' if st is not None else ':no label'))
         ck.case(('from-bs', tag, n, mm), nontrivial=st is not None)
     confs = [[c[n] for n in sorted(c)] for c in (pre['confs'] or [])]
-    cs.add_big(f'fconf_ok {len(rsnap["atoms"])}%nat {lst(rsnap["confs"], conf_term)} {lst([pair_term(t[7:9]) for t in pre["atoms"]])} '
-               f'{lst(confs, lambda c: lst(c, pos_term))}', (tag, 'from-conformers', len(rsnap['confs'])))
+    if rsnap['confs'] or confs or any(t[7] or t[8] for t in pre['atoms']) or cs.rng.random() < 0.1:
+        cs.add_big(f'fconf_ok {len(rsnap["atoms"])}%nat {lst(rsnap["confs"], conf_term)} {lst([pair_term(t[7:9]) for t in pre["atoms"]])} '
+                   f'{lst(confs, lambda c: lst(c, pos_term))}', (tag, 'from-conformers', len(rsnap['confs'])))
     ck.count(f'from-conformers:{len(rsnap["confs"])}')
     return m, tap
 
@@ -608,29 +611,34 @@ def correspondence(ck, n_corpus):
            [('corpus', x) for x in corpus.sample(corpus.lipo(), n_corpus, ck.seed, 'c20corr')] + \
            [('corpus-stereo', x) for x in corpus.sample(corpus.stereo_smiles(), n_corpus // 2, ck.seed, 'c20corrs')]
     smiles_of = {}
+    full = ck.tier == 'thorough'
     for kind, smi in pool:
         forms = normal_forms(smi)
         ck.count('corr-input:' + kind + ('' if forms else ' (not accepted by chython)'))
+        rich = kind in ('stereo', 'perm', 'corpus-stereo')
         if forms:
             kek, aro = forms
             variants = [('kekule', kek), ('aromatic', aro)] if str(kek) != str(aro) else [('plain', kek)]
+            ren = sparse_renumber(forms[1], rng)
+            set_coords(ren, rng)
+            variants.append(('renumbered+xy', ren))
+            if not full:
+                variants = variants[-1:] + [rng.choice(variants[:-1])] if rich else [rng.choice(variants)]
             for vname, m in variants:
                 tag = f'{smi}|{vname}'
                 smiles_of[tag] = smi
-                rd, _ = corr_to(cs, tag, m)
-                if rd is not None and rng.random() < 0.5:
+                rd, _ = corr_to(cs, tag, m, keep=(vname != 'renumbered+xy' or rng.random() < 0.7))
+                if rd is not None and rng.random() < (0.5 if full else 0.2):
                     corr_from(cs, tag + '|back', rd)           # the molecule the bridge itself built
                     smiles_of[tag + '|back'] = smi
-            m = sparse_renumber(forms[1], rng)
-            set_coords(m, rng)
-            tag = f'{smi}|renumbered+xy'
-            smiles_of[tag] = smi
-            corr_to(cs, tag, m, keep=rng.random() < 0.7)
-        for vname, rd in rd_variants(smi, rng):
+        rvs = rd_variants(smi, rng)
+        if not full and rvs:
+            rvs = rvs[:1] + ([rng.choice(rvs[1:])] if len(rvs) > 1 and rng.random() < 0.6 else []) if rich else [rng.choice(rvs)]
+        for vname, rd in rvs:
             tag = f'{smi}|rdkit {vname}'
             smiles_of[tag] = smi
             m2, _ = corr_from(cs, tag, rd)
-            if m2 is not None and rng.random() < 0.3:
+            if m2 is not None and rng.random() < (0.3 if full else 0.15):
                 corr_to(cs, tag + '|back', m2)
                 smiles_of[tag + '|back'] = smi
     for tag, rd in rd_malformed():
@@ -642,8 +650,12 @@ def correspondence(ck, n_corpus):
     for tag, m, keep in ch_malformed(rng):
         ck.count('corr-input:malformed chython')
         corr_to(cs, 'malformed:' + tag, m, keep)
+    import time
+    t0 = time.time()
+    ck.extra['corr_text_kb'] = (sum(map(len, cs.small)) + sum(map(len, cs.big))) // 1024
     ok1, f1, log1 = coqcases.run_cases('c20s', IMPORTS, cs.small, extra=EXTRA, shard=1500)
     ok2, f2, log2 = coqcases.run_cases('c20b', IMPORTS, cs.big, extra=EXTRA, shard=60)
+    ck.extra['corr_coq_s'] = round(time.time() - t0, 1)
     good = ok1 and ok2 and not f1 and not f2
     bad = [cs.smallmeta[i] for i in f1] + [cs.bigmeta[i] for i in f2]
     ck.oblige('correspondence: to_rdkit_molecule before SanitizeMol and from_rdkit_molecule before fix_structure == Coq model '
